@@ -116,6 +116,7 @@ struct VfRun {
   uint64_t op_budget() {
     // seam events an op may use: polynomial in size/bytes-per-read (backward scans re-read a chunk per step). Calibrated on clean runs, see DESIGN §6 C03.
     double eff = A.sf.rdpol == 1 ? 1 : A.sf.rdpol == 2 ? std::min(A.sf.rdk, xiph_vorbis_verif_readsize) : A.sf.rdpol == 3 ? std::max(1, std::min(A.sf.rdk, xiph_vorbis_verif_readsize) / 2) : A.sf.rdpol == 4 ? 2 : xiph_vorbis_verif_readsize;
+    if (A.sf.active_kind == IOF_SHORT1) eff = 1; for (auto &f : A.sf.faults) if (f.kind == IOF_SHORT1) eff = 1;   // a source that has started to deliver one byte per call
     double reads = (double)sr.bytes.size() / eff + 64; double chunks = (double)sr.bytes.size() / xiph_vorbis_verif_chunksize + 2;
     double b = 20000 + 60.0 * reads * (sr.nlinks + 4) + 40.0 * reads * std::min(chunks, 64.0) * (sr.damaged ? 4 : 1);
     static const double mult = getenv("VERIF_BUDGET_MULT") ? atof(getenv("VERIF_BUDGET_MULT")) : 1.0;   // calibration aid; never set by the checks
